@@ -157,3 +157,13 @@ Proof.
 Qed.
 
 End Check.
+
+(* verdicts of accepted runs agree, whatever the two runs did in between (completion
+   order of provider futures, activity, ...): for a problem without soft
+   requirements an accepted Unsolvable log and an accepted solution log cannot coexist *)
+Theorem verdicts_agree u P lg1 lg2 sol :
+  pr_soft P = [] -> check_unsat_log u P lg1 = true -> check_sat_log_lenient u P lg2 sol = true -> False.
+Proof.
+  intros Hs H1 H2. apply (unsat_log_sound u P lg1 H1). exists sol.
+  pose proof (sat_log_valid u P lg2 sol H2) as Hv. unfold exempt in Hv. rewrite Hs in Hv. exact Hv.
+Qed.
